@@ -31,6 +31,7 @@ type Engine struct {
 	siteN    map[string]int
 	repo     string
 	quantSliceEq bool
+	tier     string
 	goArgs   [][2]interface{}
 	verif    string
 }
